@@ -19,3 +19,15 @@ claim("C14", "bounded-exhaustive enumeration of archives x all 2^n Next/SkipNext
   "Every archive up to the bound (CID widths 4..68, section lengths at varint boundaries, v1/v2/padded) is iterated under every Next/SkipNext choice string over every source kind; metadata is compared with the reference layout and the actual bytes; source consumption is probed. Exhaustive within the bound.",
   "Trusted: refcar layout; the over-read probe cannot wrap a raw bytes.Reader.",
   "DESIGN.md 5/C14")
+claim("C10", "bounded-exhaustive enumeration of archives x destination states x root-list pairs on the real transform functions; byte comparison with the reference layout",
+  "Every CARv1 up to the bound is wrapped (both codecs) and extract(wrap(x)) compared; every CARv2 layout (paddings, with/without index) is extracted into absent/larger/smaller/same destinations; ReplaceRootsInFile is run for every ordered pair of 13 root lists on v1 and v2 files, checking bytes changed/untouched. Exhaustive within the bound.",
+  "Trusted: refcar layout; filesystem semantics of /dev/shm.",
+  "DESIGN.md 5/C10")
+claim("C07", "bounded-exhaustive enumeration of archives x index sources x options x front-ends with every alphabet CID queried; reference scan as oracle",
+  "Every archive up to the bound laid out by the independent encoder is opened through each read-only front-end and option set; every alphabet CID (present, absent, same hash other codec, equal digest other function, identity) is queried and listing/roots compared with the reference scan. Exhaustive within the bound.",
+  "Trusted: refcar scan; identity entries in embedded/supplied indexes follow the reader's StoreIdentityCIDs (the other combination is documented as open).",
+  "DESIGN.md 5/C07")
+claim("C02", "exhaustive single-deviation mutation (every bit flip of data/digest bytes, every truncation offset) of every archive up to the bound, run through every verifying reader",
+  "For every archive up to the bound, every single-bit flip of every block-data and digest byte and every proper prefix not on a section boundary is fed to every verifying scanning reader; returned blocks are re-hashed independently and a clean completion is a violation. Exhaustive over the 1-deviation neighbourhood.",
+  "Trusted: refcar hashing; 'all byte strings' is covered only as the 1-deviation neighbourhood of enumerated valid archives.",
+  "DESIGN.md 5/C02")
